@@ -18,7 +18,8 @@
    The pandas and pyarrow engines are library calls; they are compared with rel_join by the harness only. *)
 From Coq Require Import List Bool ZArith String Permutation.
 Import ListNotations.
-Require Import MV.Spec.Rel MV.Model.MergePyDict MV.Proofs.RelLemmas MV.Proofs.MergePyDictP.
+Require Import MV.Spec.Rel MV.Model.MergePyDict MV.Model.MergeLibRef MV.Proofs.RelLemmas MV.Proofs.MergePyDictP
+               MV.Proofs.MergeLibRefP.
 Open Scope string_scope.
 Open Scope list_scope.
 
@@ -69,6 +70,16 @@ Theorem kf_union_partial_dup_refuted :
   ~ bag_eq (merge_pydict idord JUnion wov_L wov_L ["k"] ["v"]) (rel_join JUnion ["k"] ["v"] wov_L wov_L).
 Proof. exact union_partial_dup_refuted_l. Qed.
 Print Assumptions kf_union_partial_dup_refuted.
+
+(* The reference DESCRIPTION of the pandas engine used by the harness (Model/MergeLibRef.v: NaN keys equal, _x/_y
+   suffixes) is the relational operator outside its two deviation domains.  Nothing is claimed about pandas itself:
+   the description is tied to pandas only by the correspondence check. *)
+Theorem pandas_ref_refines_partial : forall jt lk rk lcols rcols L R,
+  pandas_overlap lk rk lcols rcols = [] ->
+  kf_null_key jt L R lk rk = false ->
+  bag_eq (pandas_ref jt lk rk lcols rcols L R) (rel_join jt lk rk L R).
+Proof. exact pandas_ref_refines_partial_l. Qed.
+Print Assumptions pandas_ref_refines_partial.
 
 (* what bag_eq means: canonical rows are equal exactly when the rows read the same on every column,
    and the boolean test used by the correspondence checkers decides bag_eq *)
